@@ -11,6 +11,8 @@ import (
 	"path/filepath"
 	"strings"
 
+	"github.com/corestario/kyber/encrypt/ecies"
+	bls12381 "github.com/corestario/kyber/pairing/bls12381"
 	"github.com/lidofinance/dc4bc/client/types"
 	"github.com/lidofinance/dc4bc/fsm/types/requests"
 )
@@ -21,6 +23,8 @@ type deviation struct {
 	step string
 }
 
+var eciesSuite = bls12381.NewBLS12381Suite(nil)
+
 var deviations = []deviation{
 	{"commits-tail-replaced", "state_dkg_commits_await_confirmations"},
 	{"commits-all-replaced", "state_dkg_commits_await_confirmations"},
@@ -30,6 +34,8 @@ var deviations = []deviation{
 	{"deal-bitflip", "state_dkg_deals_await_confirmations"},
 	{"deal-truncated", "state_dkg_deals_await_confirmations"},
 	{"deal-empty", "state_dkg_deals_await_confirmations"},
+	{"deal-shorter-than-a-point", "state_dkg_deals_await_confirmations"},
+	{"deal-encrypts-empty-object", "state_dkg_deals_await_confirmations"},
 	{"deal-for-somebody-else", "state_dkg_deals_await_confirmations"},
 	{"response-complaint", "state_dkg_responses_await_confirmations"},
 }
@@ -124,6 +130,15 @@ func (a *algRun) c11Scenario(outDir string, n, t, dealer, victim int, dev deviat
 					req.Deal = req.Deal[:len(req.Deal)/2]
 				case "deal-empty":
 					req.Deal = []byte{}
+				case "deal-shorter-than-a-point":
+					req.Deal = req.Deal[:16]
+				case "deal-encrypts-empty-object":
+					// a well-formed ciphertext for the addressee whose plaintext is not a deal
+					if vk := c.nodes[victim].air.GetPubKey(); vk != nil {
+						if ct, err := ecies.Encrypt(eciesSuite, vk, []byte("{}"), eciesSuite.Hash); err == nil {
+							req.Deal = ct
+						}
+					}
 				case "deal-for-somebody-else":
 					for _, o := range res.ResultMsgs {
 						if o.RecipientAddr != m.RecipientAddr && o.RecipientAddr != nd.name {
